@@ -48,12 +48,13 @@ VARIABLES
   lastDeqAt,   \* line index of the latest dequeue
   rr,       \* round-robin cursor reconstructed from the dequeues (1-based index of next queue)
   crashed, raced,
+  overlap,  \* two state-changing control calls have been in progress at the same time (their combined effect is unspecified)
   pcancel,  \* the user's context has been cancelled (the listener may stop the worker at any later moment)
   ad        \* adapter bookkeeping
 
 vars == <<l, hdr, E, sub, addCall, addRet, enters, exits, enterAt, exitAt, deqd, closeStarted, closeNil, mp,
           waitRet, lastRes, rank, pend, R, ctlPending, ws, epoch, pauseStarts, concNow, concMax, concSince,
-          qclosed, lastExitAt, lastDeqAt, rr, crashed, raced, pcancel, ad>>
+          qclosed, lastExitAt, lastDeqAt, rr, crashed, raced, overlap, pcancel, ad>>
 
 NoCall == [op |-> "none", job |-> 0, qi |-> 0, b |-> 0, n |-> 0, at |-> 0, snap |-> {}, clean |-> FALSE, entered |-> {},
            solo |-> FALSE, rankFloor |-> -1, closedBefore |-> FALSE, qclosedBefore |-> FALSE, waitedBefore |-> FALSE]
@@ -110,7 +111,7 @@ Blank(h) ==
   /\ concSince' = [j \in DOMAIN sub' |-> 0]
   /\ qclosed' = [q \in DOMAIN h.queues |-> "open"]
   /\ lastExitAt' = 0 /\ lastDeqAt' = 0 /\ rr' = 1
-  /\ crashed' = FALSE /\ raced' = FALSE /\ pcancel' = FALSE
+  /\ crashed' = FALSE /\ raced' = FALSE /\ pcancel' = FALSE /\ overlap' = FALSE
   /\ ad' = [pending |-> <<>>, unacked |-> {}, acked |-> {}, issued |-> {}, badack |-> 0, earlyack |-> 0, enq |-> {}]
 
 Init ==
@@ -119,7 +120,7 @@ Init ==
   /\ deqd = <<>> /\ closeStarted = <<>> /\ closeNil = <<>> /\ mp = <<>> /\ waitRet = <<>> /\ lastRes = <<>> /\ rank = <<>>
   /\ pend = <<>> /\ R = NoCall /\ ctlPending = 0 /\ ws = "initiated" /\ epoch = "open" /\ pauseStarts = 0
   /\ concNow = {1} /\ concMax = 1 /\ concSince = <<>> /\ qclosed = <<>> /\ lastExitAt = 0 /\ lastDeqAt = 0 /\ rr = 1
-  /\ crashed = FALSE /\ raced = FALSE /\ pcancel = FALSE
+  /\ crashed = FALSE /\ raced = FALSE /\ pcancel = FALSE /\ overlap = FALSE
   /\ ad = [pending |-> <<>>, unacked |-> {}, acked |-> {}, issued |-> {}, badack |-> 0, earlyack |-> 0, enq |-> {}]
 
 -----------------------------------------------------------------------------
@@ -127,7 +128,7 @@ Init ==
 
 U(v) == UNCHANGED v
 jobVars == <<sub, addCall, addRet, enters, exits, enterAt, exitAt, deqd, closeStarted, closeNil, mp, waitRet, lastRes, rank, concSince>>
-ctlVars == <<pend, R, ctlPending, ws, epoch, pauseStarts, concNow, concMax, qclosed, pcancel>>
+ctlVars == <<pend, R, ctlPending, ws, epoch, pauseStarts, concNow, concMax, qclosed, pcancel, overlap>>
 miscVars == <<lastExitAt, lastDeqAt, rr, crashed, raced, ad>>
 
 \* jobs submitted by a call: Add -> {job}; AddAll -> items
@@ -171,6 +172,7 @@ OnCall(e) ==
   /\ pauseStarts' = IF e.op \in {"Resume", "Restart"} THEN 0 ELSE pauseStarts
   /\ qclosed' = [q \in Queues |-> IF e.op = "QClose" /\ e.qi = q /\ qclosed[q] = "open" THEN "closing" ELSE qclosed[q]]
   /\ pcancel' = (pcancel \/ (e.op = "CancelCtx" /\ hdr.ctx))
+  /\ overlap' = (overlap \/ (e.op \in StateChanging /\ \E c \in Clients : pend[c].op \in StateChanging))
   /\ U(<<addRet, enters, exits, enterAt, exitAt, deqd, closeNil, waitRet, lastRes, rank>>)
   /\ U(miscVars)
 
@@ -193,7 +195,8 @@ OnRet(e) ==
                ELSE sub[j]]
   /\ addRet' = [j \in Jobs |-> IF j \in js THEN l ELSE addRet[j]]
   /\ closeNil' = [j \in Jobs |-> closeNil[j] \/ (pc.op = "Close" /\ pc.job = j /\ e.res = "nil")]
-  /\ waitRet' = [j \in Jobs |-> waitRet[j] \/ (pc.op \in {"Wait", "Result"} /\ pc.job = j /\ e.res # "nohandle")
+  \* Result/Err return as soon as the outcome has been sent, which is before the job is closed; only Wait implies Closed
+  /\ waitRet' = [j \in Jobs |-> waitRet[j] \/ ((pc.op = "Wait" \/ (pc.op = "Result" /\ hdr.wk = "plain")) /\ pc.job = j /\ e.res # "nohandle")
                                            \/ (pc.op = "BatchWait" /\ e.res # "nohandle" /\ BatchOf(j) = pc.b /\ pc.b # 0)]
   /\ lastRes' = [j \in Jobs |-> IF pc.op = "Result" /\ pc.job = j /\ e.res = "val" /\ lastRes[j] = <<>> THEN <<e.v, e.ecls, e.ekey>> ELSE lastRes[j]]
   /\ rank' = [j \in Jobs |-> IF pc.op \in {"Status", "Wait"} /\ pc.job = j /\ e.res # "nohandle" /\ Rank(e.st) > rank[j] THEN Rank(e.st) ELSE rank[j]]
@@ -210,7 +213,7 @@ OnRet(e) ==
                    (IF \A c \in Clients : c = e.p \/ pend[c].op # "TunePool" THEN {e.conc} ELSE concNow \cup {e.conc})
                 ELSE concNow
   /\ qclosed' = [q \in Queues |-> IF pc.op = "QClose" /\ pc.qi = q THEN "closed" ELSE qclosed[q]]
-  /\ U(<<addCall, enters, exits, enterAt, exitAt, deqd, closeStarted, mp, concSince, concMax, pcancel>>)
+  /\ U(<<addCall, enters, exits, enterAt, exitAt, deqd, closeStarted, mp, concSince, concMax, pcancel, overlap>>)
   /\ U(miscVars)
 
 OnEnter(e) ==
@@ -220,7 +223,7 @@ OnEnter(e) ==
        ELSE U(<<enters, enterAt>>)
   /\ pauseStarts' = IF epoch = "pause" THEN pauseStarts + 1 ELSE pauseStarts
   /\ U(<<sub, addCall, addRet, exits, exitAt, deqd, closeStarted, closeNil, mp, waitRet, lastRes, rank, concSince>>)
-  /\ U(<<pend, R, ctlPending, ws, epoch, concNow, concMax, qclosed, pcancel>>)
+  /\ U(<<pend, R, ctlPending, ws, epoch, concNow, concMax, qclosed, pcancel, overlap>>)
   /\ U(miscVars)
 
 OnExit(e) ==
@@ -351,7 +354,7 @@ C06_Returns == Quiescent => \A c \in Clients :
                   => ~(E.processing = 0 /\ (E.pending = 0 \/ (pend[c].solo /\ pend[c].op \in {"PauseAndWait", "Stop", "Restart"})))
 
 ---- \* C07 own outcome, panics contained
-ExpRes(j) == IF exits[j] = 0 THEN <<0, "", 0>>
+ExpRes(j) == IF exits[j] = 0 \/ hdr.wk = "plain" THEN <<0, "", 0>>      \* a plain worker's handle carries no outcome
              ELSE IF OutOf(j) = "ok" THEN <<IF hdr.wk = "result" THEN j * 10 + 7 ELSE 0, "", 0>>
              ELSE IF OutOf(j) = "err" THEN <<0, "e", j>> ELSE <<0, "p", j>>
 C07_Own == IsRet("Result") /\ E.res = "val" /\ E.job \in Jobs => <<E.v, E.ecls, E.ekey>> = ExpRes(E.job)
@@ -391,7 +394,7 @@ C10_CloseCodes == IsRet("Close") /\ E.job \in Jobs =>
 C10_QClose == IsRet("Add") /\ E.job \in Jobs /\ R.qclosedBefore => ~E.ok
 C10_NoCrash == ~crashed
 \* nothing is silently dropped: at rest every accepted job has run, or is closed, or is still counted as pending
-Limbo == {j \in Jobs : Accepted(j) /\ enters[j] = 0 /\ E.jst[ToString(j)] # "Closed"}
+Limbo == {j \in Jobs : Accepted(j) /\ enters[j] = 0 /\ E.jst[ToString(j)] \notin {"Closed", ""}}     \* "": no handle (batch item)
 C10_NoDrop == Quiescent /\ NoUnknown /\ (\A q \in Queues : ~IsAdapterQ(q)) => Cardinality(Limbo) <= E.pending
 C10_Released == Quiescent => \A c \in Clients : pend[c].op \in {"Wait", "Result"} /\ (\E i \in DOMAIN E.blocked : E.blocked[i] = c)
                                /\ pend[c].job \in Jobs => ~closeNil[pend[c].job]
@@ -428,12 +431,12 @@ C17_ExactAtRest == Quiescent =>
             \/ \E j \in Jobs : QOf(j) = q /\ mp[j])
 
 ---- \* C18 pool and goroutines
-C18_PoolBound == Quiescent => E.cpool <= concMax
+C18_PoolBound == Quiescent /\ ~overlap => E.cpool <= concMax
 C18_IdleAtLeastOne == RunningAtRest => E.idle >= 1
 MinIdle == Max({(Min(concNow) * (IF hdr.ratio = 0 THEN 1 ELSE hdr.ratio)) \div 100, 1})
 C18_Trimmed == RunningAtRest /\ hdr.expiry > 0 /\ E.settled => E.idle <= Max({(Max(concNow) * (IF hdr.ratio = 0 THEN 1 ELSE hdr.ratio)) \div 100, 1})
-C18_NoLeak == Quiescent /\ ws = "stopped" /\ E.wss = "Stopped" /\ E.blocked = <<>> => E.cloop = 0 /\ E.cpool = 0 /\ E.creaper = 0 /\ E.cctxl = 0
-C18_OneLoop == RunningAtRest => E.cloop = 1 /\ E.creaper = (IF hdr.expiry > 0 THEN 1 ELSE 0)
+C18_NoLeak == Quiescent /\ ~overlap /\ ws = "stopped" /\ E.wss = "Stopped" /\ E.blocked = <<>> => E.cloop = 0 /\ E.cpool = 0 /\ E.creaper = 0 /\ E.cctxl = 0
+C18_OneLoop == RunningAtRest /\ ~overlap => E.cloop = 1 /\ E.creaper = (IF hdr.expiry > 0 THEN 1 ELSE 0)
 
 ---- \* C19
 C19_NoRace == ~raced
